@@ -313,7 +313,7 @@ func (f *Frame) applyContract(spec *UnitSpec, name string, c *ssa.CallCommon, si
 		return TV{}, false
 	}
 	mkEnv := func(cur *State, extra map[string]TV) *Env {
-		e := &Env{u: u, st: cur, old: pre, bound: map[string]boundVar{}, pkg: pkg, qctr: &u.qctr}
+		e := &Env{u: u, st: cur, old: pre, bound: map[string]boundVar{}, pkg: pkg, qctr: &u.qctr, fn: c.StaticCallee()}
 		e.lookup = func(e *Env, n string) (TV, bool) {
 			if extra != nil {
 				if tv, ok := extra[n]; ok {
